@@ -144,7 +144,7 @@ class C13(Check):
         self.pairs = [(p, c) for p in range(len(PAYLOADS)) for c in range(len(CHANNELS))]
 
     def n_cases(self, tier):
-        return len(self.pairs) * (10 if tier == 'quick' else 300)
+        return len(self.pairs) * (10 if tier == 'quick' else 2000)
 
     def gen_case(self, rng, index):
         p, c = self.pairs[index % len(self.pairs)]
